@@ -148,6 +148,13 @@ def plan(tier, seed):
         {'tag': 'q', 'children': [{'interp': {'pipe': [py("sorted(o.keys())"), py("'not-callable'")]}}]}, 'B']}
     jobs.append({'prog': attr3, 'vars': [['o', 'obj2', 0]], 'label': 'attr-before-item'})
 
+    # template variables named like the exception classes that `|` and exists: catch do not change what is caught
+    exn = {'tag': 'div', 'close_indent': 0, 'children': [
+        'A', {'tag': 'p', 'children': [{'interp': {'pipe': [L(0), py("'fallback'")]}}]},
+        {'tag': 'q', 'children': [{'interp': {'pipe': [py('NameError + TypeError'), py("'unbound'")]}}]}, 'B']}
+    jobs.append({'prog': exn, 'vars': [[0, 'out', 0], ['NameError', 'maybe', 1], ['TypeError', 'maybe', 2], ['LookupError', 'maybe', 3],
+                                       ['AttributeError', 'maybe', 4], ['ValueError', 'maybe', 5]],
+                 'label': 'exception-class-names-as-variables'})
     # python sub-grammar: lambdas (parameter names colliding with template variables), f-strings,
     # comprehensions, calls/attribute/item access
     def doc(*children):
